@@ -1479,6 +1479,11 @@ func (r *Run) spawnObligations(fr *Frame, st *State, reach Term, clo Val, instr 
 		pos = instr.Pos()
 	}
 	for i, c := range sp.Requires {
+		if c.Label == "thread" {
+			// facts about the thread that will run the literal (it holds no lock, owns no token): true of a new
+			// thread by construction, not a matter for the thread that hands the literal over
+			continue
+		}
 		parts := env.evalBoolParts(c.E)
 		if env.err != nil {
 			r.fatal = fmt.Sprintf("%s requires %d (at hand-over in %s): %v", sp.Key, i+1, funcKey(fr.fn), env.err)
